@@ -7,7 +7,6 @@ import (
 	"strings"
 	"time"
 
-	"github.com/go-logr/logr"
 	"github.com/go-logr/stdr"
 	"github.com/hashicorp/go-hclog"
 	"github.com/sirupsen/logrus"
@@ -369,5 +368,3 @@ func (c Case) build() (*built, error) {
 	}
 	return b, nil
 }
-
-var _ = logr.Discard
